@@ -11,7 +11,7 @@ from typing import Any, Callable, Dict, List, Optional, Tuple
 
 # link kinds usable in an awaiting (coroutine-rooted) chain
 AWAIT_KINDS = ["coro", "typescoro", "await_wrapper", "await_gen", "agen_asend", "agen_anext", "agen_asyncfor",
-               "agen_athrow", "agen_aclose"]
+               "agen_athrow", "agen_aclose", "agen_asendval"]
 # link kinds of a plain-generator chain
 GEN_KINDS = ["yield_from", "yield_from_iterwrap"]
 TERMINALS = ["trap", "iter_leaf"]
@@ -147,6 +147,10 @@ def make_awaitable(kinds: List[str], terminal: str, reg: Reg, pre: bool) -> Call
                     yield 0
                 finally:
                     await inner()
+            elif mode == "asendval":
+                got = yield 0  # the value sent in is itself a (started) async generator: a second object with an ag_frame
+                await inner()
+                yield got
             else:
                 await inner()
                 yield 1
@@ -166,6 +170,17 @@ def make_awaitable(kinds: List[str], terminal: str, reg: Reg, pre: bool) -> Call
                 return None
             await ag.asend(None)
             reg.own(ag)
+            if mode == "asendval":
+                async def payload() -> Any:
+                    yield "payload"
+                    yield "payload2"
+
+                pl = payload()
+                await pl.asend(None)
+                try:
+                    return await ag.asend(pl)
+                finally:
+                    await pl.aclose()
             if mode == "athrow":
                 return await ag.athrow(Flag())
             return await ag.aclose()
